@@ -32,6 +32,9 @@ type Op struct {
 	// GetReader: the reader's Close) has returned, the `ctx, cancel := ...; defer cancel()` idiom;
 	// "dead" = a context that is already cancelled when the call is made.
 	Ctx string `json:"ctx,omitempty"`
+	// Pre (copen): how many of Writes are written right after Create; the rest, and Close, follow
+	// in the matching cclose some operations later
+	Pre int `json:"pre,omitempty"`
 }
 
 func (o Op) tx() int { return o.Tx - 1 }
